@@ -33,13 +33,16 @@ static Circuit readCircuit(Reader &r) {
 static void genCircuit(SplitMix &g, int &ncOut, std::string &out) {
   std::ostringstream s;
   long long sc = g.coin(75) ? 1 : (1LL << g.uni(4, 18));
-  int nc = (int)g.uni(1, 8); ncOut = nc;
+  // 2 %: many long nets inside the supported magnitude range (|v| < 2^22), so that the TOTAL wirelength passes 2^31 and 2^32
+  // while every coordinate and every single net span fits an int (the accumulators are long long in the code)
+  bool huge = g.coin(2); if (huge) sc = 1LL << 17;
+  int nc = (int)g.uni(huge ? 4 : 1, 8); ncOut = nc;
   s << nc;
   std::vector<long long> w(nc), h(nc);
   for (int i = 0; i < nc; ++i) { w[i] = g.uni(0, 6) * sc; h[i] = g.uni(0, 6) * sc; s << " " << g.uni(-20, 20) * sc << " " << g.uni(-20, 20) * sc << " " << w[i] << " " << h[i] << " " << g.uni(0, 7); }
-  int nn = (int)g.uni(0, 7); s << " " << nn;
+  int nn = huge ? (int)g.uni(800, 1600) : (int)g.uni(0, 7); s << " " << nn;
   for (int n = 0; n < nn; ++n) {
-    int np = (int)(g.coin(15) ? g.uni(0, 1) : g.uni(2, 6)); s << " " << np;
+    int np = (int)(g.coin(15) ? g.uni(0, 1) : g.uni(2, 6)); if (huge) np = 2; s << " " << np;
     int same = g.coin(15) ? (int)g.uni(0, nc - 1) : -1;   // all pins on one cell
     for (int j = 0; j < np; ++j) { int c = same >= 0 ? same : (int)g.uni(0, nc - 1); s << " " << c << " " << g.uni(-1, w[c] / sc + 1) * sc << " " << g.uni(-1, h[c] / sc + 1) * sc; }
   }
